@@ -848,12 +848,19 @@ func (c *Client) peekPacket() (head byte, err error) {
 		}
 
 		lastN := len(c.peek)
-		c.peek, err = c.bufr.Peek(size)
+		peekN := size
+		if head>>4 == typePUBLISH && peekN > c.bufr.Size() {
+			// BigMessage needs a full buffer
+			peekN = c.bufr.Size()
+		}
+		c.peek, err = c.bufr.Peek(peekN)
 		switch {
-		case err == nil: // OK
-			return head, err
-		case head>>4 == typePUBLISH && errors.Is(err, bufio.ErrBufferFull):
+		case err != nil:
+			break
+		case peekN < size:
 			return head, &BigMessage{Client: c, Size: size}
+		default: // OK
+			return head, nil
 		}
 
 		// Allow deadline expiry if at least one byte was transferred.
